@@ -406,6 +406,75 @@ func checkC17(c *hx.Ctx) {
 		}
 		c.Floor("aka_lists_with_non_string_members", 50)
 	}
+	// ---- service / key sections that hold members which are not objects (reachable through a replace patch or the add patch
+	// itself): add / remove patches treat the well-formed entries exactly as if the other members were not there, and what they
+	// leave behind is a list of entries (no holes)
+	{
+		sr := c.Rng("sections-with-non-objects")
+		for k := 0; k < c.N(120, 1200); k++ {
+			ids := newIDPool(sr)
+			section, addAct, rmAct, member := "service", "add-services", "remove-services", "services"
+			mkEntry := func(id string) interface{} { return genService(sr, id) }
+			nextID := func() string { return ids.svc(sr) }
+			if k%2 == 1 {
+				section, addAct, rmAct, member = "publicKey", "add-public-keys", "remove-public-keys", "publicKeys"
+				mkEntry = func(id string) interface{} { return genKeyEntry(sr, id) }
+				nextID = func() string { return ids.key(sr) }
+			}
+			var entries []interface{}
+			for _, id := range distinctOf(1+sr.Intn(4), nextID) {
+				entries = append(entries, mkEntry(id.(string)))
+			}
+			junkIn := func(list []interface{}) []interface{} {
+				out := append([]interface{}{}, list...)
+				for n := 0; n < 1+sr.Intn(2); n++ {
+					at := sr.Intn(len(out) + 1)
+					junk := hx.Pick(sr, []interface{}{"str", 42.0, nil, true, []interface{}{"y"}})
+					out = append(append(append([]interface{}{}, out[:at]...), junk), out[at:]...)
+				}
+				return out
+			}
+			var cleanPatches, dirtyPatches []interface{}
+			for n := 0; n < 1+sr.Intn(3); n++ {
+				if sr.Bool() {
+					var add []interface{}
+					for _, id := range distinctOf(1+sr.Intn(2), nextID) {
+						add = append(add, mkEntry(id.(string)))
+					}
+					cleanPatches = append(cleanPatches, map[string]interface{}{"action": addAct, member: add})
+					if sr.Bool() {
+						add = junkIn(add) // the patch itself carries members that are not entries
+					}
+					dirtyPatches = append(dirtyPatches, map[string]interface{}{"action": addAct, member: add})
+				} else {
+					rm := map[string]interface{}{"action": rmAct, "ids": distinctOf(1+sr.Intn(2), nextID)}
+					cleanPatches, dirtyPatches = append(cleanPatches, rm), append(dirtyPatches, rm)
+				}
+			}
+			clean := map[string]interface{}{section: entries, "note": "n"}
+			dirty := map[string]interface{}{section: junkIn(entries), "note": "n"}
+			c.Eval()
+			a, ok := composeRun(c, pool, composeCase{Doc: mustJSON(clean), Patches: mustJSON(cleanPatches)}, "section-entries-only")
+			if !ok || a == nil {
+				return
+			}
+			b, ok := composeRun(c, pool, composeCase{Doc: mustJSON(dirty), Patches: mustJSON(dirtyPatches)}, "section-with-non-objects")
+			if !ok || b == nil {
+				return
+			}
+			sec := func(raw json.RawMessage) string {
+				t, _ := rawTree(raw).(map[string]interface{})
+				return string(ref.MustJCS(t[section]))
+			}
+			if (a.ApplyErr == "") != (b.ApplyErr == "") || (a.ApplyErr == "" && sec(a.Result) != sec(b.Result)) {
+				c.Violation(fmt.Sprintf("C17 %s / %s patches on a %s section that also holds members which are not objects do not leave the list of entries they leave without those members\n   without: %s\n   with:    %s (errors %q / %q)",
+					addAct, rmAct, section, trunc600(sec(a.Result)), trunc600(sec(b.Result)), a.ApplyErr, b.ApplyErr), map[string]interface{}{"document": dirty, "patches": dirtyPatches})
+				return
+			}
+			c.Count("sections_with_non_object_members")
+		}
+		c.Floor("sections_with_non_object_members", 100)
+	}
 	// ---- PatchesFromDocument round trip
 	nDocs := c.N(4000, 80000)
 	dseeds := make([]uint64, nDocs)
